@@ -31,6 +31,8 @@ func main() {
 	switch *stream {
 	case "cast":
 		rep = castStream(*seed, *tier, *out, pm, *focus)
+	case "conc":
+		rep = concStream(*seed, *tier, *out, pm, *focus)
 	case "jl":
 		rep = jlStream(*seed, *tier, *out, pm, *focus)
 	case "alias":
